@@ -822,7 +822,9 @@ func (r *run) settle() {
 	// a whole pass (over everything that was pending when the first one came) and a whole sleep have gone by
 	idle := make(chan struct{})
 	go func() { r.sh.IdleWait(); r.sh.IdleWait(); close(idle) }()
-	dl := time.After(30 * time.Second)
+	// two idle periods are at least two sleeps of the loop (5 s each) plus its passes; on a loaded machine (the
+	// thorough tier runs 48 scenarios at once next to TLC) 30 s of wall time were not always enough
+	dl := time.After(180 * time.Second)
 	for {
 		select {
 		case <-idle:
